@@ -36,7 +36,7 @@ def run_interrupt_sweeps(c):
     """(b1) calculus fragment: implementation vs model for every firing point"""
     r = c.rng
     run = c09.Runner(c)
-    nh = 60 if c.tier == 'quick' else 600
+    nh = 40 if c.tier == 'quick' else 600
     hist = [list(h) for h in c09.BOUNDARY]
     for k in range(nh):
         steps, _ = c09.gen_history(r, shadowing=(k % 3 == 1), faulty=(k % 3 == 2))
@@ -61,8 +61,15 @@ def run_interrupt_sweeps(c):
     mreqs = [sx([Sym('calc-run')] + [[c09.to_sx(trees[t]), (k if i == j else -1)] for i, t in enumerate(hist[hi])]) for hi, j, k in meta]
     mouts = c.model('eval', mreqs)
     # the model's reachable set per (history, step): the variables after an interrupt at any poll of that step
+    # (every poll of the model's run of that step, not only the firing points sampled for the implementation)
     reach = {}
-    for (hi, j, k), mo in zip(meta, mouts):
+    rmeta = []
+    for (hi, j) in sorted({(hi, j) for hi, j, _ in meta}):
+        mp_n = c09.model_step(models[hi][j])[2]
+        for k in range(0, mp_n + 1):
+            rmeta.append((hi, j, k))
+    routs = c.model('eval', [sx([Sym('calc-run')] + [[c09.to_sx(trees[t]), (k if i == j else -1)] for i, t in enumerate(hist[hi])]) for hi, j, k in rmeta], cross=False)
+    for (hi, j, k), mo in zip(rmeta, routs):
         mp = parse_sx(mo)
         if mp[0] == b'ok':
             reach.setdefault((hi, j), []).append(c09.model_step(mp[1][j])[3])
@@ -122,7 +129,7 @@ def run_general_sweeps(c):
     """(b2) arbitrary inputs: outcome in {interrupted, same}; per-variable old-or-final; _/ans move together"""
     r = c.rng
     ins = CORPUS_VALID + CORPUS_ASSIGN + CORPUS_LONG + CORPUS_MULTILINE + CORPUS_INVALID[:20] + CORPUS_RANDOM + CORPUS_RATES
-    for _ in range(60 if c.tier == 'quick' else 800):
+    for _ in range(40 if c.tier == 'quick' else 800):
         s = gen_expr(r)
         if no_hang(s):
             ins.append(s)
@@ -264,7 +271,7 @@ def run_l1_polls(c):
         return 0, [limb() for _ in range(r.randint(1, maxlen))]
 
     cases = []
-    n = 300 if c.tier == 'quick' else 5000
+    n = 200 if c.tier == 'quick' else 5000
     for _ in range(n):
         sa, a = raw(); sb, b = raw()
         cases.append(('mul', sa, a, sb, b))
